@@ -604,6 +604,36 @@ func c08Scenarios(tier string) []*world.Scenario {
 			}
 		}
 	}
+	// a deep pipeline of small requests (more than 1024 requests available to one read of the 64 KiB buffer): the same
+	// requests are recognised whether the stream arrives in one piece, in pieces of 300 requests or cut mid-request
+	{
+		for _, n := range []int{1024, 1025, 1100, 2700} {
+			var reqs []Req
+			for j := 0; j < n; j++ {
+				reqs = append(reqs, GetReq(fmt.Sprintf("{%s}%d", []string{keysA[0], keysB[0], keysC[0]}[j%3], j)))
+			}
+			st := c08stream{fmt.Sprintf("pipeline-%d-gets", n), reqs}
+			per := len(reqs[0].Bytes)
+			for _, mode := range []string{"whole", "pieces-of-300", "cut-mid-request"} {
+				var cuts []int
+				switch mode {
+				case "pieces-of-300":
+					off := 0
+					for j, r := range reqs {
+						if j > 0 && j%300 == 0 {
+							cuts = append(cuts, off)
+						}
+						off += len(r.Bytes)
+					}
+				case "cut-mid-request":
+					cuts = []int{per*1000 + 7, per*1024 + 3}
+				}
+				sc := c08Scenario(st, cuts, 65536, mode)
+				sc.Family, sc.Horizon, sc.NoVariant = "deep-pipeline", 60000, true
+				out = append(out, sc)
+			}
+		}
+	}
 	// another client died inside a request (its prefix parked in the inbound buffer) before this client's stream arrives
 	{
 		ab := world.Cmd("set", keysA[0], strings.Repeat("A", 34))
